@@ -257,11 +257,11 @@ class C15(F.PropCheck):
                         differ('variant %d data_saved=%d%s' % (i1[0], i1[1], ' after a saved form' if after_form else ''), bytes(d1), bytes(d2), a)
                 elif k == 'GET':
                     (k1, i1, d1) = next(it); size_checks(k1, i1, d1, 'GET /')
-                    if after_form and equiv and a is not None:
+                    if a is not None and py_wf(a) and (equiv or not after_form):
                         pub = self.public_material(a, extra)
                         for (nm, s) in secrets_of(a):
                             if len(s) >= 8 and s in bytes(d1) and not any(s in p for p in pub):
-                                v.append('GET / after a saved form: the page contains %s%s' % (nm, ''.join('; stored %s is not NUL-terminated inside its field' % u for u in self.unterminated(a)))); break
+                                v.append('GET /: the page contains %s%s' % (nm, ''.join('; stored %s is not NUL-terminated inside its field' % u for u in self.unterminated(a)))); break
                 elif k == 'FORMB': reqb = bytes(data)
                 elif k == 'FORM':
                     mask = lambda r: re.sub(rb'(wpw|pwd|mwd)=[^&]*', lambda m: m.group(1) + b'=' + b'*' * (len(m.group(0)) - 4), r)
